@@ -78,6 +78,25 @@ CLAIMED = {
          "temporary index attribute removed'; (c) traversals, searches, basic_render and the PlantUML helpers pass a syntactic effect analysis: no "
          "attribute store/delete, in-place operations only on containers they allocate, every callee read-only by (a) or a user callback (A7). "
          "nrpickler.dumps / pyvis internals: assumed not to write to edgegraph objects (A10)."),
+ "C14": ("proof", "12.11/C14", "All six functions of the PlantUML source renderer are verified on every path against contracts taken from the statement, "
+         "over option tables and graphs that are symbolic: _resolve_options returns the entry of the FIRST class of clas.__mro__ that is a key of the "
+         "table (loop invariant over the recursively defined least index; ValueError exactly when no class of the MRO is configured) and changes "
+         "nothing but the normalisation of that entry's show_attrs; _vertex_title is hex(id(v)) for '$id', else title_format.format over the shown "
+         "attributes; _one_vert_to_puml yields 'type title <<ClassName>> {' + one line per shown attribute + '}' from the nearest configured class "
+         "(inner loop invariant over the attribute names), or what user_render_func returns; _one_link_to_puml yields title(v1) + ' ' + v1side + '--' "
+         "+ v2side + ' ' + title(v2) with each title under the options of that vertex's own class and the arrow ends of the nearest configured class "
+         "of the link; render_to_plantuml_src returns None for an empty universe and otherwise ''.join of ['@startuml'] ++ skinparam lines ++ "
+         "[note] ++ [DECL(v) for v in members, in order] ++ [REL(l) for l in p] ++ ['@enduml'] where p is a duplicate-free enumeration (ghost; set "
+         "iteration order, A9) of exactly the links listed by some member - three loop invariants, the middle one over options['skinparams']. "
+         "Hence one declaration per member (members are duplicate-free by I2), exactly one relation line per collected link - in particular per "
+         "internal link (I1 + Lean inc_of_mem) - in v1 -> v2 orientation, and no line without a link. The titles in declarations and relation "
+         "lines are the same term although the option dictionaries are mutated in between (show_attrs is compiled on first use): proved via "
+         "the invariant 'every option value is as at entry or the normal form of the entry value'. NOT modelled (uninterpreted functions of "
+         "exactly the values the statement lets them depend on): dir(), re matching, str.format, str() of option values; the per-object skinparam "
+         "block is an arbitrary string sequence in the specification. Domain: option tables that cover the graph's classes with the keys the "
+         "renderer reads, two-ended links between vertices, user callables that return. Character-level unambiguity of the joined text (a title "
+         "imitating a relation line) is outside the contract. Every failing obligation is searched for a failing input by the explorer "
+         "operation plantuml_src, which parses the real output back (declarations, relation lines) and compares it with the graph."),
  "C15": ("proof", "12.5/C15", "make_pyvis_net is verified on all paths against a functional contract taken from the statement, over an ASSUMED contract of "
          "the third-party class pyvis.network.Network (add_node appends unless the id exists; add_edge raises AssertionError unless both ids are nodes, "
          "skips a pair already joined in an undirected network, otherwise appends (from, to, arrow = directed); listed as an assumption and compared "
@@ -116,9 +135,6 @@ NA = {
          "is not Python source of the repository. A contract on _NonrecursivePickler's scheduler alone (work-list drained, no Python recursion) decides "
          "only the no-RecursionError clause, and a bounded round-trip comparison would be a different technique (testing), so nothing is claimed. "
          "C05's un-pickling clause is stated there as an explicit assumption."),
- "C14": ("render_to_plantuml_src assembles its text with str.format over option tables, class-hierarchy lookups (closest configured base class) and a set of "
-         "links whose iteration order is unspecified; the property is about the parsed-back text. The string theory of z3/cvc5 does not decide format/join chains "
-         "of this size (DESIGN.md 7), and the set-order dependence cannot be given a deterministic spec function. C13 covers the read-only part of the function."),
 }
 checks = []
 for pid, (cat, ref, text) in CLAIMED.items():
